@@ -97,14 +97,46 @@ def describe_diff(a, b):
 
 # -- references ---------------------------------------------------------------------------------------
 
+_DECOYS = []
+
+
+def decoy_names():
+    """every scalar of the input descriptions that could be taken for a file name (in-line hex payloads, digests,
+    names, numbers): a file of that name in the working directory must not matter - the inputs are given by absolute path"""
+    if not _DECOYS:
+        from .. import ops18
+        seen = set()
+
+        def walk(o):
+            if isinstance(o, dict):
+                for k, v in o.items():
+                    walk(k)
+                    walk(v)
+            elif isinstance(o, (list, tuple)):
+                for v in o:
+                    walk(v)
+            elif isinstance(o, (str, int)) and not isinstance(o, bool):
+                t = str(o)
+                if t and "/" not in t and "\x00" not in t and len(t.encode()) < 200 and t not in (".", ".."):
+                    seen.add(t)
+                    seen.add(t.lower())
+                    seen.add(t.upper())
+        walk(ops18.descriptions("/nonexistent-inputs"))
+        _DECOYS.extend(sorted(seen))
+    return list(_DECOYS)
+
+
 def run_reference(case, agg):
     op = case["op"]
     key = h8("c18ref", op)
     with fresh_dir("c18") as d:
         decoy = os.path.join(d, "decoy")
         os.makedirs(decoy)
-        for f in ("fw.bin", "other.bin", "child2.suit", "B1.suit", "B3.suit", "B1.yaml", "app.config", "ed25519.pem", "aes.bin"):
-            open(os.path.join(decoy, f), "wb").write(b"DECOY " + f.encode())
+        for f in ["fw.bin", "other.bin", "child2.suit", "B1.suit", "B3.suit", "B1.yaml", "app.config", "ed25519.pem", "aes.bin"] + decoy_names():
+            try:
+                open(os.path.join(decoy, f), "wb").write(b"DECOY " + f.encode())
+            except OSError:
+                pass
         variants = [("0", None), ("1", None), ("2", None), ("4242", None), ("random", None), ("0", "/"), ("0", decoy)]
         results = []
         for i, (hs, cwd) in enumerate(variants):
